@@ -42,9 +42,11 @@ def char_boundary(b, n):
 
 
 def fake_case(rng, tier):
-    nn = rng.choice([0, 0, 1, 2, 3, 5, 40 if tier != 'thorough' else 3000])
-    fails = [rng.choice(NAMES) for _ in range(rng.randint(0, nn))]
-    errs = [rng.choice(NAMES) for _ in range(nn - len(fails))]
+    nn = rng.choice([0, 0, 1, 2, 3, 5, 40] if tier != 'thorough' else [0, 0, 1, 2, 3, 5, 40, 40, 40, 200, 3000])
+    # thousands of names are drawn from the short spellings only (the case literal evaluated by coqc stays small)
+    pool = NAMES if nn < 1000 else ['t.a', 'a', '=', 'q\tq', 't\u00ebst']
+    fails = [rng.choice(pool) for _ in range(rng.randint(0, nn))]
+    errs = [rng.choice(pool) for _ in range(nn - len(fails))]
     ran = rng.choice([0, 1, len(fails) + len(errs) + 5, 12345])
     rep = report_bytes(ran, fails, errs)
     before = b''.join(rng.choice(NOISE) for _ in range(rng.choice([0, 0, 1, 3])))
